@@ -97,6 +97,14 @@ def stmt_failure(idx, pos, w, seed=0):
         if not np.allclose(mo.calculated_refineds, calc, atol=1e-9 * sc) or abs(mo.error - e_want) > 1e-9 * max(1.0, e_want):
             return ('%s() of a Match whose error / calculated_refineds had been read before: reported error %.6g, calculated positions off by %.3g; '
                     'the returned lattice has error %.6g' % (nm, mo.error, float(np.abs(mo.calculated_refineds - calc).max()), e_want))
+    # omitted elevations are ones (documented default), whatever the peak values are: the fit is then the unweighted optimum
+    mv_ = matcher.affinematch(centers=pos, refineds=pos, peak_values=w, indices=idx)
+    if mv_.isnan() or not (np.allclose(mv_.zero, mu.zero, atol=1e-7 * sc, rtol=0) and np.allclose(mv_.a, mu.a, atol=1e-7 * sc, rtol=0) and np.allclose(mv_.b, mu.b, atol=1e-7 * sc, rtol=0)):
+        return 'affinematch with peak values but without peak elevations is not the unweighted optimum (the default elevations are ones): zero %s instead of %s' % (
+            np.asarray(mv_.zero).tolist(), np.asarray(mu.zero).tolist())
+    e_unw = float(np.linalg.norm(pos - (mu.zero + idx @ np.array([mu.a, mu.b])), axis=1).mean())
+    if abs(mv_.error - e_unw) > 1e-7 * max(1.0, e_unw) * sc:
+        return 'affinematch without peak elevations: error %.9g is not the plain mean residual distance %.9g' % (mv_.error, e_unw)
     # the fit is a function of positions, indices and weights only: whatever lattice the Match object carried before (none, NaN as in an
     # invalid match, infinite, absurdly far off) must not matter
     for nm, z0, a0, b0 in (('NaN', np.full(2, np.nan), np.full(2, np.nan), np.full(2, np.nan)), ('inf zero', np.full(2, np.inf), m.a, m.b),
@@ -195,7 +203,7 @@ def replay(body):
 def run(ctx):
     rng = ctx.rng
     ctx.check_theorems()
-    ctx.check_generated(['vfit'])
+    ctx.check_generated(['vfit', 'vdefaults'])
     exprs, meta = [], []
     for k in range(ctx.n(60, 600)):
         idx, pos, w = gen(rng)
